@@ -136,7 +136,9 @@ impl Inner {
         self.next_id
     }
     pub fn log(&mut self, tid: usize, what: String) {
-        if self.log_enabled {
+        // (a scenario that runs into its step budget is abandoned with its threads parked for ever:
+        // its log must not grow without bound, nor stay allocated — see `try_run`)
+        if self.log_enabled && self.events.len() < 600_000 {
             let t = self.clock;
             self.events.push(Event { t, tid, what });
         }
@@ -469,6 +471,8 @@ pub struct Report {
     pub aborted: bool,
     /// threads that ended by panicking (counted whether or not the event log is on)
     pub panics: usize,
+    /// scheduling decisions taken
+    pub steps: u64,
 }
 
 /// Runs `f` as controlled thread 0 under a fresh runtime.  Threads that are still blocked or
@@ -518,11 +522,13 @@ pub fn try_run<R: Send + 'static, F: FnOnce() -> R + Send + 'static>(cfg: &Confi
         g = rt.done.wait(g).unwrap();
     }
     let rep = Report {
-        events: g.events.clone(),
+        // moved out, not copied: the runtime of an abandoned scenario stays alive with its parked threads
+        events: { g.log_enabled = false; std::mem::take(&mut g.events) },
         clock: g.clock,
         threads: g.threads.iter().map(|t| (t.name.clone(), t.state.clone())).collect(),
         aborted: g.aborted,
         panics: g.panics,
+        steps: g.steps,
     };
     let finished = g.driver_done;
     drop(g);
